@@ -149,7 +149,8 @@ def check_guards(ctx):
         for cs in c01.multisets():
             if not cs:
                 continue
-            tab = {length: sp.Integer(len(cs)), c01.attr('num_species'): sp.Integer(sum(cs))}
+            tab = {length: sp.Integer(len(cs)), c01.attr('num_species'): sp.Integer(sum(cs)),
+                   sp.Function('self.sp_inds.size')(): sp.Integer(len(cs))}
             for i, c in enumerate(cs):
                 tab[counts(sp.Integer(i))] = sp.Integer(c)
             got = c01.instantiate(term, tab)
@@ -175,7 +176,7 @@ def check_safe(ctx):
 
 def check_safe_table(ctx, mod_, cls):
     prog = ctx.prog
-    f = ctx.fn('%s:%s.initialize_reaction_inputs' % (mod_, cls))
+    f = util.inline_pure_temps(ctx.fn('%s:%s.initialize_reaction_inputs' % (mod_, cls)))
     where = ctx.loc(mod_, f)
     # --- table
     U, D = 'self.update_array', 'self.delay_update_array'
